@@ -44,7 +44,9 @@ LEAN = dict(
     assumptions=[
         "alpha is evaluated by the implementation in the dtype of the nll terms (float32; float64 attachment for the joint model): "
         "decisions with |u - alpha| <= alpha * 8*2^-23*(|dR*tinv| + |dA| + 1) are counted as ambiguous and not compared",
-        "injected exact ties assume alpha = exp(-1*((newR-oldR)*tinv + (newA-oldA))) in that operation order",
+        "exact ties (u = alpha and its float neighbours) are injected only when the implementation's ratio is visible as a local "
+        "tensor `alpha` in the frames calling torch.rand (it is then validated against the from-scratch ratio); otherwise only "
+        "alpha*(1 +- 1e-3 / 1e-2) are injected",
     ],
 )
 
@@ -62,8 +64,6 @@ MODELS = {
     "univariate_joint": "joint-uni",
     "shared_speed_logistic_diag_noise": "tiny",
 }
-QUICK_MODELS = ["logistic_diag_noise", "linear_scalar_noise", "joint_diagonal", "univariate_joint",
-                "univariate_logistic", "logistic_binary"]
 KINDS = ["Gibbs", "FastGibbs", "Metropolis-Hastings"]
 TINVS = [1.0, 0.5, 0.1]
 EPS32 = 2.0 ** -23
@@ -220,6 +220,22 @@ class Recorder:
             na, oa = e_prop["A"], e_cur["A"]
         return torch.exp(-1 * ((nr - orr) * self.tinv + (na - oa)))
 
+    def _find_alpha(self, u):
+        import sys
+        torch = self.env.torch
+        try:
+            f = sys._getframe(3)  # _find_alpha <- _on_uniform <- rand wrapper <- caller of torch.rand
+        except ValueError:
+            return None
+        for _ in range(3):
+            if f is None:
+                break
+            a = f.f_locals.get("alpha")
+            if isinstance(a, torch.Tensor) and a.numel() == u.numel() and a.shape == u.shape and a.is_floating_point():
+                return a.detach().clone()
+            f = f.f_back
+        return None
+
     def _on_uniform(self, out):
         torch = self.env.torch
         prop = self.state[self.var].detach().clone()
@@ -233,6 +249,13 @@ class Recorder:
             return out
         u = out.detach().clone()
         kinds = ["rec"] * u.numel()
+        # the acceptance ratio the implementation is about to compare with, when it is visible as a local
+        # tensor `alpha` of the frames that called torch.rand (used only to *place* exact ties; it is
+        # validated against the from-scratch ratio in `judge`)
+        alpha_obs = self._find_alpha(u)
+        exact_ok = alpha_obs is not None
+        if exact_ok:
+            alpha = alpha_obs
         if self.inject and alpha.shape == u.shape:
             uf, af = u.reshape(-1), alpha.reshape(-1)
             one = torch.tensor(1.0, dtype=u.dtype)
@@ -247,6 +270,8 @@ class Recorder:
                     k = r.choice(["rec", "rec", "rec", "one"])
                 else:
                     k = r.choice(["rec", "rec", "rec", "zero"])
+                if k in ("tie", "below", "above", "zero") and not exact_ok:
+                    k = r.choice(["lo3", "hi3"]) if 1e-30 < a < 1.0 else "rec"
                 if k == "rec":
                     continue
                 a32 = af[i].to(u.dtype)  # nearest value a uniform draw can take
@@ -268,7 +293,8 @@ class Recorder:
                 uf[i] = v
                 kinds[i] = k
         self.events.append({"t": "u", "u": u.detach().clone(), "raw": out.detach().clone(), "prop": prop, "cur": cur,
-                            "e_cur": e_cur, "e_prop": e_prop, "alpha": alpha.detach().clone(), "kinds": kinds})
+                            "e_cur": e_cur, "e_prop": e_prop, "alpha": alpha.detach().clone(), "kinds": kinds,
+                            "alpha_observed": exact_ok})
         return u
 
 
@@ -726,6 +752,40 @@ def run_setup(chk, env, model_name, kind, seed, tier, lines, expect):
                 chk.tag("decisions_nontrivial", "count", nt)
 
 
+def iteration_case(chk, env, model_name, kind, seed, tinv):
+    """algo_with_samplers / mcmc_saem `_iteration`: every latent variable is sampled exactly once per iteration,
+    on the algorithm's state, with the algorithm's current inverse temperature."""
+    case = {"kind": "iteration", "model": model_name, "sampler_pop": kind, "setup_seed": seed, "tinv": tinv}
+    try:
+        with core.quiet():
+            su = Setup(env, model_name, kind, seed)
+            su.algo.temperature_inv = tinv
+            su.algo.temperature = 1.0 / tinv
+            calls = []
+            for v, smp in su.algo.samplers.items():
+                def w(state, *, temperature_inv, _o=smp.sample, _v=v):
+                    calls.append((_v, float(temperature_inv), state is su.state))
+                    return _o(state, temperature_inv=temperature_inv)
+                smp.sample = w
+            su.algo.current_iteration = 1
+            su.algo._iteration(su.model, su.state)
+    except Exception as e:  # noqa
+        chk.impl_failure(case, f"one MCMC-SAEM iteration failed: {err_class(env, e)}: {str(e)[:200]}")
+        return
+    want = sorted(su.pop_vars + su.ind_vars)
+    if sorted(c[0] for c in calls) != want:
+        chk.impl_failure(case, f"samplers called for {sorted(c[0] for c in calls)} in one iteration, latent variables are {want}")
+    bad = [c for c in calls if c[1] != tinv or not c[2]]
+    if bad:
+        chk.impl_failure(case, f"sampler of {bad[0][0]} called with temperature_inv={bad[0][1]!r} (algorithm's value {tinv!r}) / on another state")
+    for v, smp in su.algo.samplers.items():
+        shp = tuple(su.state[v].shape)
+        exp_shape = shp[1:] if v in su.ind_vars else shp
+        if tuple(smp.shape) != exp_shape or smp.name != v:
+            chk.impl_failure(case, f"sampler registered for {v} has name {smp.name!r} / shape {tuple(smp.shape)}, variable shape is {exp_shape}")
+    chk.case(("iteration", model_name, kind, seed, tinv), nontrivial=True, tags={"sampler": "iteration", "model": model_name})
+
+
 def run(chk: core.Check):
     env = _imports()
     chk.rule = ("one case = one real sampler.sample(state, temperature_inv) call under observation, on a fitted model after warm-up "
@@ -733,7 +793,7 @@ def run(chk: core.Check):
                 "(+ a random 1/T in the thorough tier); ~55% of the uniform draws handed to the sampler are chosen adversarially "
                 "(exact tie u=alpha, float neighbours of alpha, alpha(1+-1e-3), alpha(1+-1e-2), 0, 1-ulp). A case is non-trivial when "
                 "at least one non-ambiguous decision has 0 < alpha < 1; distinct by (model, sampler kind, variable, tinv, seed, call index).")
-    models = QUICK_MODELS if chk.tier == "quick" else list(MODELS)
+    models = list(MODELS)
     lines, expect = [], []
     for c in core.load_corpus(PROP):
         run_setup(chk, env, c["model"], c["sampler_pop"], c["setup_seed"], c.get("tier", "quick"), lines, expect)
@@ -748,6 +808,9 @@ def run(chk: core.Check):
     for (m, k) in plan:
         seed = chk.rng.randrange(1, 10 ** 6)
         run_setup(chk, env, m, k, seed, chk.tier, lines, expect)
+    for _ in range(2 if chk.tier == "quick" else 8):
+        iteration_case(chk, env, chk.rng.choice(models), chk.rng.choice(KINDS), chk.rng.randrange(1, 10 ** 6),
+                       chk.rng.choice([1.0, 0.5, 0.1, 0.25]))
     compare_model(chk, lines, expect)
     chk.exhaustive = False
 
@@ -759,5 +822,8 @@ def replay(chk: core.Check, payload):
         chk.note("replay file has no case")
         return
     lines, expect = [], []
+    if case.get("kind") == "iteration":
+        iteration_case(chk, env, case["model"], case["sampler_pop"], case["setup_seed"], case["tinv"])
+        return
     run_setup(chk, env, case["model"], case["sampler_pop"], case["setup_seed"], case.get("tier", "quick"), lines, expect)
     compare_model(chk, lines, expect)
